@@ -147,9 +147,10 @@ def f_r4_order(schema: Schema, rep: Report):
         for d in ds:
             if d.kind == "unpack" and isinstance(d.value, ast.Name) and d.value.id == accum:
                 unpack[d.index] = nm
-    if len(unpack) < 4:
-        raise AnalysisError("F-R4: reducer does not unpack (args, kwargs, prev_index, prev_is_listmember) from its accumulator")
-    args_n, kwargs_n, prev_n, prevlist_n = unpack[0], unpack[1], unpack[2], unpack[3]
+    if len(unpack) < 3:
+        raise AnalysisError("F-R4: reducer does not unpack (args, kwargs, prev_index, ...) from its accumulator")
+    args_n, kwargs_n, prev_n = unpack[0], unpack[1], unpack[2]
+    prevlist_n = unpack.get(3)  # None: the accumulator does not remember whether the previous child was a list member
     # the position variable
     idxvars = [nm for nm, ds in defs.items() for d in ds if d.kind == "assign" and isinstance(d.value, ast.Call) and isinstance(d.value.func, ast.Attribute) and d.value.func.attr == "index"]
     if not idxvars:
@@ -174,10 +175,10 @@ def f_r4_order(schema: Schema, rep: Report):
         rest = [c for c in conj if c not in cmp_]
         # the exemption must be exactly "both are list members"
         islist_names = [nm for nm, ds in defs.items() for d in ds if d.kind == "assign" and "listaggregates" in text(ex.x(d.value))]
-        ok_rest = len(rest) == 1 and islist_names and rest[0] in (
+        ok_rest = (not rest) or (len(rest) == 1 and islist_names and prevlist_n is not None and rest[0] in (
             f"not ({islist_names[0]} and {prevlist_n})", f"not ({prevlist_n} and {islist_names[0]})",
             f"not {islist_names[0]} or not {prevlist_n}", f"not {prevlist_n} or not {islist_names[0]}",
-        )
+        ))
         guards.append(n)
         strict = cmp_[0] == f"{idx} <= {prev_n}"
         rep.check("F-R4", "update_args:order-guard-exemption", bool(ok_rest), f"the order test is exempted by {rest}; only `both current and previous are list members` may exempt it" if not ok_rest else "", f"{rel}:{n.stmt.lineno}")
@@ -204,11 +205,14 @@ def f_r4_order(schema: Schema, rep: Report):
         v = rn.stmt.value
         if isinstance(v, ast.Name) and v.id == accum:
             continue  # unknown-tag branch: accumulator unchanged (C07)
-        ok = isinstance(v, ast.Tuple) and len(v.elts) == 4 and text(v.elts[0]) == args_n and text(v.elts[1]) == kwargs_n and text(v.elts[2]) == idx
+        ok = isinstance(v, ast.Tuple) and len(v.elts) == len(unpack) and text(v.elts[0]) == args_n and text(v.elts[1]) == kwargs_n and text(v.elts[2]) == idx
+        if ok and len(v.elts) > 3:
+            islist = [nm for nm, ds in defs.items() for d in ds if d.kind == "assign" and "listaggregates" in text(ex.x(d.value))]
+            ok = bool(islist) and text(v.elts[3]) == islist[0]
         rep.check("F-R4", "update_args:threads-position", ok, f"returns {ast.unparse(v) if v else None}; the next step must see this child's position as prev_index" if not ok else "", f"{rel}:{rn.stmt.lineno}")
     exo = Expander(outer)
     init = exo.x(call.args[2]) if len(call.args) > 2 else None
-    ok = isinstance(init, ast.Tuple) and len(init.elts) == 4 and text(init.elts[0]) == "[]" and text(init.elts[1]) == "{}" and isinstance(init.elts[2], ast.UnaryOp) and text(init.elts[3]) == "False"
+    ok = isinstance(init, ast.Tuple) and len(init.elts) == len(unpack) and text(init.elts[0]) == "[]" and text(init.elts[1]) == "{}" and isinstance(init.elts[2], ast.UnaryOp) and (len(init.elts) < 4 or text(init.elts[3]) == "False")
     rep.check("F-R4", "_convert:initial-accumulator", ok, f"initial accumulator is {ast.unparse(init) if init is not None else None}; expected ([], {{}}, <negative>, False)" if not ok else "", f"{rel}:{call.lineno}")
     # cls(*args, **kwargs) built from exactly the two accumulated collections
     rets = [n for n in own_nodes(outer) if isinstance(n, ast.Return) and isinstance(n.value, ast.Call) and n.value.args or (isinstance(n, ast.Return) and isinstance(n.value, ast.Call) and n.value.keywords)]
